@@ -12,20 +12,21 @@ about is mirrored AS CODED:
   Python `set` of boundary rows are inputs), even / uneven split with Python's `round` (half to even);
 * `_internal_scaling`: later data are mapped with the STORED `_data_range[0]` / `_scale_factor`
   (`shift_value`, `scale_factor`, `shift_value(0.005)`), never refitted; a data set that the caller has
-  already scaled is accepted unchanged iff `DataSet.same_scaling` holds (range and factor only — the origin
-  is not compared) and refused otherwise; samples with a coordinate `< 0.0049` or `> 0.9951` are removed;
+  already scaled is accepted unchanged iff `DataSet.same_scaling` holds (range and factor) AND its original
+  minimum equals the one of the learning data; it is refused otherwise; samples with a coordinate `< 0.0049` or `> 0.9951` are removed;
 * `_classificate`: `np.argmax(axis=1)` = first maximum; rows are appended to `_densities_testset`;
-* `__call__`, `test_data`, `evaluate`, `_evaluate`, `_process_performed_classification`, including the
-  three `concatenate` calls of `test_data` whose results are discarded (so `_testing_data`,
-  `_omitted_data` never grow while `_calculated_classes_testset` does).
+* `__call__`, `test_data`, `evaluate`, `_evaluate`, `_process_performed_classification`; `test_data` appends the
+  set-aside samples to `_omitted_data` and the tested ones to `_testing_data` BEFORE it classifies (so a call that
+  raises inside `_classificate` has already extended `_omitted_data`) and appends the classes to
+  `_calculated_classes_testset`.
 
 Not modelled (the harness does not generate it): data sets scaled beforehand by other means than one `scale_range` (e.g. a
 `DataSet` object this `Classification` has already scaled in place); `continue_dimension_wise_refinement`; printing
 and plotting; numpy broadcasting of samples of a wrong dimension other than the refusal.
 
 Numbers are exact rationals: `0.005 = 1/200`, `0.995 = 199/200`, `0.99 = 99/100`, `0.0049 = 49/10000`,
-`0.9951 = 9951/10000`; labels are `Int` (`-1` = unlabelled); returned classes are INDICES into the list of
-classificators (`Nat`), exactly as `np.argmax` returns them.
+`0.9951 = 9951/10000`; labels are `Int` (`-1` = unlabelled); returned classes are the LABELS
+`_learning_data.get_labels()[np.argmax(row)]` (`Int`).
 -/
 namespace SparseSpace.Classify
 
@@ -119,7 +120,7 @@ structure State where
   omitted : Data                -- `_omitted_data`
   learning : Data               -- `_learning_data`
   testing : Data                -- `_testing_data`
-  classes : List Nat            -- `_calculated_classes_testset`
+  classes : List Int            -- `_calculated_classes_testset` (labels)
   densities : List (List Rat)   -- `_densities_testset`
   performed : Bool              -- `_performed_classification`
   k : Nat                       -- `len(_classificators)`
@@ -146,10 +147,12 @@ def preScale (a b : Rat) (d : Data) : Data :=
   d.map fun s => { s with pt := List.zipWith (fun (ax : Axis) x => x * ax.f + (a - ax.lo * ax.f)) axes s.pt }
 
 /-- `self._scaled_data.same_scaling(data)`: both scaled; the range entries must both be floats (only the
-fitted case) and equal; the factors must agree entry by entry (`zip`).  The origin is NOT compared. -/
+fitted case) and equal; the factors must agree entry by entry (`zip`); and (`_internal_scaling`)
+`np.array_equal(_scaled_data.get_original_min(), data.get_original_min())`: same length, same entries. -/
 def sameScaling (st : State) (a b : Rat) (d : Data) : Bool :=
   st.fitted && decide (a = loTarget) && decide (b = hiTarget) &&
-    (List.zipWith (fun (x y : Rat) => decide (x = y)) (st.sc.map (·.f)) (preFactor a b d)).all id
+    (List.zipWith (fun (x y : Rat) => decide (x = y)) (st.sc.map (·.f)) (preFactor a b d)).all id &&
+    decide (st.sc.map (·.lo) = colMin (d.map (·.pt)))
 
 /-- `_internal_scaling` up to (not including) the removal: the coordinates the samples are given -/
 def internalPts (st : State) (inp : Input) : Except Err Data :=
@@ -177,6 +180,17 @@ def densRow (dens : Nat → Pt → Rat) (k : Nat) (p : Pt) : List Rat := (List.r
 
 def densRows (dens : Nat → Pt → Rat) (k : Nat) (d : Data) : List (List Rat) := d.map fun s => densRow dens k s.pt
 
+/-- `set(labels)` of a data set with small non-negative labels: ascending, duplicate-free -/
+def insertSorted (x : Int) : List Int → List Int
+  | [] => [x]
+  | y :: ys => if x < y then x :: y :: ys else if x = y then y :: ys else y :: insertSorted x ys
+
+def labelSet (d : Data) : List Int := d.foldr (fun s acc => insertSorted s.label acc) []
+
+/-- `labels[np.argmax(row)]` with `labels = np.array(_learning_data.get_labels())` (the order in which the
+classificators were built); the index is below `len(labels)` whenever there is one classificator per label -/
+def classOf (labels : List Int) (row : List Rat) : Int := labels.getD (argmaxFirst row) (-1)
+
 /-! ### evaluation summary -/
 
 structure Summary where
@@ -186,12 +200,12 @@ structure Summary where
 deriving DecidableEq, Repr
 
 /-- `sum([0 if (x == y) else 1 for x, y in zip(labels, classes)])` -/
-def mismatches : List Int → List Nat → Nat
-  | l :: ls, c :: cs => (if l = (c : Int) then 0 else 1) + mismatches ls cs
+def mismatches : List Int → List Int → Nat
+  | l :: ls, c :: cs => (if l = c then 0 else 1) + mismatches ls cs
   | _, _ => 0
 
 /-- `_evaluate(testing_data, calculated_classes)` -/
-def summarize (labels : List Int) (cls : List Nat) : Except Err Summary :=
+def summarize (labels : List Int) (cls : List Int) : Except Err Summary :=
   if labels.length ≠ cls.length then .error .lengthMismatch
   else if cls.length = 0 then .error .divZero
   else .ok { wrong := mismatches labels cls, total := cls.length,
@@ -200,7 +214,7 @@ def summarize (labels : List Int) (cls : List Nat) : Except Err Summary :=
 /-! ### the public operations after learning -/
 
 structure CallResult where
-  evaluated : List (Pt × Nat)   -- returned DataSet: scaled sample, class index
+  evaluated : List (Pt × Int)   -- returned DataSet: scaled sample, class label
   removed : Data                -- removed (and, with `print_removed`, reported) samples, scaled
 deriving DecidableEq, Repr
 
@@ -216,20 +230,32 @@ def call (dens : Nat → Pt → Rat) (st : State) (inp : Input) : Except Err (St
       else
         let rows := densRows dens st.k kept
         let dens1 := st.densities ++ rows                              -- `_classificate`: `_densities_testset += ...`
-        let cls := rows.map argmaxFirst
+        let cls := rows.map (classOf (labelSet st.learning))
         let dens2 := dens1.take (dens1.length - kept.length)           -- `del _densities_testset[len - n:]`
         .ok ({ st with densities := dens2 },
              { evaluated := (kept.map (·.pt)).zip cls, removed := removedOf pts })
 
 structure TestResult where
-  used : List (Sample × Nat)    -- tested samples (scaled, true label) with their class index
+  used : List (Sample × Int)    -- tested samples (scaled, true label) with their class
   omitted : Data                -- unlabelled samples of this call (set aside)
   removed : Data
   summary : Summary
 deriving DecidableEq, Repr
 
-/-- `Classification.test_data(new_testing_data)`.  The results of the three `concatenate` calls are
-discarded by the code, so `omitted`, `testing` stay as they were. -/
+/-- the state a `test_data` call leaves behind when it RAISES: the concatenations precede `_classificate`, so if
+scaling and removal went through and no labelled sample is left, the set-aside samples have already been appended to
+`_omitted_data` (`_testing_data` / `_scaled_data` get nothing); every other exception leaves the object as it was -/
+def testFailState (st : State) (inp : Input) : State :=
+  if !st.performed || inp.data.isEmpty then st
+  else match internalPts st inp with
+    | .error _ => st
+    | .ok pts =>
+      if (keptOf pts).isEmpty then st
+      else if (labelled (keptOf pts)).isEmpty then { st with omitted := st.omitted ++ unlabelled (keptOf pts) }
+      else st
+
+/-- `Classification.test_data(new_testing_data)`: set-aside samples are appended to `_omitted_data`, tested ones to
+`_testing_data`, their classes to `_calculated_classes_testset`, their density rows to `_densities_testset`. -/
 def test (dens : Nat → Pt → Rat) (st : State) (inp : Input) : Except Err (State × TestResult) :=
   if !st.performed then .error .notPerformed
   else if inp.data.isEmpty then .error .emptyInput
@@ -243,11 +269,12 @@ def test (dens : Nat → Pt → Rat) (st : State) (inp : Input) : Except Err (St
         if used.isEmpty then .error .emptyClassify
         else
           let rows := densRows dens st.k used
-          let cls := rows.map argmaxFirst
+          let cls := rows.map (classOf (labelSet st.learning))
           match summarize (used.map (·.label)) cls with
           | .error e => .error e
           | .ok sm =>
-            .ok ({ st with densities := st.densities ++ rows, classes := st.classes ++ cls },
+            .ok ({ st with omitted := st.omitted ++ unlabelled kept, testing := st.testing ++ used,
+                           densities := st.densities ++ rows, classes := st.classes ++ cls },
                  { used := used.zip cls, omitted := unlabelled kept, removed := removedOf pts, summary := sm })
 
 /-- `Classification.evaluate()` -/
@@ -258,13 +285,6 @@ def evaluate (st : State) : Except Err Summary :=
   else summarize (st.testing.map (·.label)) st.classes
 
 /-! ### learning: `_initialize` and `_process_performed_classification` -/
-
-/-- `set(labels)` of a data set with small non-negative labels: ascending, duplicate-free -/
-def insertSorted (x : Int) : List Int → List Int
-  | [] => [x]
-  | y :: ys => if x < y then x :: y :: ys else if x = y then y :: ys else y :: insertSorted x ys
-
-def labelSet (d : Data) : List Int := d.foldr (fun s acc => insertSorted s.label acc) []
 
 /-- first stage of `_initialize`: set-aside of unlabelled samples, the learning scaling, the scaled
 labelled data (after the out-of-range removal if a `data_range` was given) and the scaled omitted samples -/
@@ -356,7 +376,7 @@ def perform (dens : Nat → Pt → Rat) (st : State) : Except Err State :=
     if st.testing.isEmpty then .ok { st with performed := true, k := k }
     else
       let rows := densRows dens k st.testing
-      .ok { st with performed := true, k := k, densities := st.densities ++ rows, classes := rows.map argmaxFirst }
+      .ok { st with performed := true, k := k, densities := st.densities ++ rows, classes := rows.map (classOf (labelSet st.learning)) }
 
 /-! ### histories of later calls -/
 
@@ -366,10 +386,10 @@ inductive Op where
   | evaluate
 deriving Repr
 
-/-- one later call; an exception leaves the object as it was -/
+/-- one later call; an exception leaves the object as it was, except for `testFailState` -/
 def step (dens : Nat → Pt → Rat) (st : State) : Op → State
   | .call inp => match call dens st inp with | .ok r => r.1 | .error _ => st
-  | .test inp => match test dens st inp with | .ok r => r.1 | .error _ => st
+  | .test inp => match test dens st inp with | .ok r => r.1 | .error _ => testFailState st inp
   | .evaluate => st
 
 def run (dens : Nat → Pt → Rat) (st : State) (ops : List Op) : State := ops.foldl (step dens) st
